@@ -61,7 +61,7 @@ def scenarios(draw, component=None):
             opts = [draw(option_specs(scn["mdp"])) for _ in range(draw(st.integers(1, 2)))]
             for i, o in enumerate(opts):
                 o["max_steps"] = 60
-                o["name"] = o["name"] + str(i)
+                o["name"] = None if o["name"] is None else o["name"] + str(i)  # unnamed options stay unnamed
             P.update(options=opts, n_sims=draw(st.integers(2, 8)))
         else:
             P.update(max_steps=draw(st.integers(3, 10)), n=draw(st.integers(2, 6)))
@@ -202,6 +202,6 @@ def _mk(component):
 
 _QUICK = {"laostar": 30, "lrtdp": 30, "astar": 40, "bfs": 40, "td": 40, "rmax": 30, "bpi": 12, "ga": 16, "semimdp": 30,
           "implicit": 30, "mdp_rollout": 40, "mdp_evaluate": 30, "pomdp_rollout": 40}
-PROPS = [Prop(c, _mk(c), prop_scenario, quick=_QUICK[c], thorough=_QUICK[c] * 12,
+PROPS = [Prop(c, _mk(c), prop_scenario, quick=_QUICK[c], thorough=_QUICK[c] * 40,
               doc=f"{c}: same digest across runs / global-generator perturbations / hash seeds; global generators untouched")
          for c in COMPONENTS]
